@@ -266,9 +266,9 @@ pub fn mbi_builder(bytes: &[u8]) {
         expect.push(21);
     }
     for i in 0..n(21) {
-        let t: Box<multiboot2_common::DynSizedStructure<TagHeader>> = multiboot2_common::new_boxed(TagHeader::new(TagType::Custom(0x1000 + i as u32), 0), &[&[i as u8]]);
+        let t: Box<multiboot2_common::DynSizedStructure<TagHeader>> = multiboot2_common::new_boxed(TagHeader::new(TagType::Custom(0x2000 - i as u32), 0), &[&[i as u8]]);
         bld = bld.add_custom_tag(t);
-        expect.push(0x1000 + i as u32);
+        expect.push(0x2000 - i as u32);
     }
     expect.push(0);
     let built = bld.build();
@@ -286,7 +286,12 @@ pub fn mbi_builder(bytes: &[u8]) {
     let ends_ok = got.last() == Some(&0) && got.iter().filter(|t| **t == 0).count() == 1;
     g.sort();
     e.sort();
-    println!("PROBE: {} tags={:?} expected={:?}", if g == e && ends_ok { "MATCH" } else { "MISMATCH" }, got, expect);
+    // repeatable kinds keep their call order (modules / SMBIOS are told apart by their first payload byte)
+    let custom_got: Vec<u32> = got.iter().copied().filter(|t| *t > 21).collect();
+    let custom_exp: Vec<u32> = expect.iter().copied().filter(|t| *t > 21).collect();
+    let mods: Vec<u32> = bi.module_tags().map(|m| m.start_address()).collect();
+    let order_ok = custom_got == custom_exp && mods.windows(2).all(|w| w[0] < w[1]);
+    println!("PROBE: {} tags={:?} expected={:?}", if g == e && ends_ok && order_ok { "MATCH" } else { "MISMATCH" }, got, expect);
 }
 
 pub fn run(name: &str, bytes: &[u8]) -> bool {
